@@ -44,10 +44,11 @@ def C08_full (WFf : Ors → Prop) : Prop :=
 /-! ### proved: a fragment of the grammar, for all of its trees -/
 
 /-- The proved fragment: terms `tag`, `not tag`, `^symbol`, `path *== @ref`,
-`rel? [^symbol] [@ref]`, `path op literal` for the six operators with a Bool, Symbol or Ref literal,
-and parenthesised groups — over paths of one or more identifier segments (`a->b->c`, a lone `not`
-excluded), id-alphabet Refs and Symbols; any number of `and` / `or` operands, any nesting up to the
-parser's limit. -/
+`rel? [^symbol] [@ref]`, `path op literal` for the six operators with a Bool, Symbol, Ref (with or
+without display name), Str or Uri literal, and parenthesised groups — over paths of one or more
+identifier segments (`a->b->c`, a lone `not` excluded), id-alphabet Refs and Symbols, Str, Uri and
+display names over all 128 ASCII characters (every escape the writer produces: `\"`, `\\`, `\$`, `\n`,
+`\r`, `\t`, `\u00XX`); any number of `and` / `or` operands, any nesting up to the parser's limit. -/
 def Fragment (f : Ors) : Prop := f ≠ .nil ∧ AllO f ∧ nestO f ≤ 64
 
 theorem lexImage_lit (v : Val) (h : OkLit v) : Hs.C01.lexImage v = v := by
@@ -74,9 +75,10 @@ end
 /-- **print-then-parse is the identity on every tree of the fragment** — unbounded in the number of
 operands, the length of paths, identifiers, Ref ids and Symbols, and (up to the limit of 64) the
 nesting.  This is `C08_full` restricted to `Fragment`.  Missing for the full statement: comparison
-literals of the kinds Str, Uri, Number, Date, Time, DateTime and Ref with a display name — each
-needs the framing lemma of the Zinc reader it goes through (`parse_str`, `parse_uri`,
-`parse_number_date_time`), which the correspondence runs exercise on every kind instead. -/
+literals of the kinds Number, Date, Time, DateTime (a framing lemma for `parse_number_date_time`
+with its look-ahead) and characters beyond ASCII inside Str / Uri literals and display names (UTF-8
+decode ∘ encode = id for the lossy decoder); the correspondence runs exercise all of these on every
+kind instead. -/
 theorem C08_fragment_partial : C08_full Fragment := by
   intro f ⟨hne, hall, hd⟩
   rw [lexImageO_ok f hall]
@@ -108,8 +110,8 @@ theorem C08_skeleton_partial : C08_full Skeleton := fun f h => C08_fragment_part
 def seg (s : String) : List Char := s.toList
 def tag (s : String) : Term := .has [seg s]
 
-/-- each literal with its exact value: a comparison with a Bool, Symbol or Ref literal, printed, parses
-to that comparison — for every operator, every identifier path, every such literal -/
+/-- each literal with its exact value: a comparison with a Bool, Symbol, Ref, (ASCII) Str or Uri literal,
+printed, parses to that comparison — for every operator, every identifier path, every such literal -/
 theorem literal_exact (p : Path) (op : CmpOp) (v : Val) (hp : WFPath p) (np : p ≠ kwNot) (hv : OkLit v) :
     filterOfBytes (printPath p ++ [32] ++ printOp op ++ [32] ++ printVal v)
       = .ok (.cons (.cons (.cmp p op v) .nil) .nil) := by
@@ -167,24 +169,25 @@ example : Skeleton sample := by
 /-- … that prints as expected -/
 example : printFilter sample = bytes "a->b or not c and ( d or e )" := by decide +kernel
 
-/-- `siteRef->dis == true and ^hot-water and equipRef *== @p:demo:r:1 or inputs? ^air @ahu-1 and id != @x` is in the
-fragment … -/
+/-- a tree with a Str literal with escapes, a Symbol term, a wildcard term whose Ref has a display
+name (not printed), a relation and a Ref literal with display name is in the fragment … -/
 def sample2 : Ors :=
-  .cons (.cons (.cmp [seg "siteRef", seg "dis"] .eq (.bool true))
+  .cons (.cons (.cmp [seg "siteRef", seg "dis"] .eq (.str (seg "a \"q\"\n$")))
           (.cons (.isA (seg "hot-water")) (.cons (.weq [seg "equipRef"] { id := seg "p:demo:r:1", dis := some (seg "Dis") }) .nil)))
     (.cons (.cons (.rel (seg "inputs") (some (seg "air")) (some { id := seg "ahu-1", dis := none }))
-          (.cons (.cmp [seg "id"] .ne (.ref (seg "x") none)) .nil)) .nil)
+          (.cons (.cmp [seg "id"] .ne (.ref (seg "x") (some (seg "Dis \\ x")))) .nil)) .nil)
 
 example : Fragment sample2 := by
   refine ⟨by simp [sample2], ?_, by simp [sample2, nestO, nestA, nestT]⟩
   have ids : ∀ x ∈ [seg "siteRef", seg "dis", seg "equipRef", seg "inputs", seg "id"], IdSeg x := by decide
   have syms : SymSeg (seg "hot-water") ∧ SymSeg (seg "air") := by decide
   have refs : RefSeg (seg "p:demo:r:1") ∧ RefSeg (seg "ahu-1") ∧ RefSeg (seg "x") := by decide
+  have strs : AsciiStr (seg "a \"q\"\n$") ∧ AsciiStr (seg "Dis \\ x") := by decide
   have nots : [seg "siteRef", seg "dis"] ≠ kwNot ∧ [seg "equipRef"] ≠ kwNot ∧ [seg "id"] ≠ kwNot := by decide
   simp only [sample2, AllO, AllA, OkT, OkLit, WFPath]
-  simp [ids, syms, refs, nots]
+  simp [ids, syms, refs, nots, strs]
 example : printFilter sample2 =
-    bytes "siteRef->dis == true and ^hot-water and equipRef *== @p:demo:r:1 or inputs? ^air @ahu-1 and id != @x" := by
+    bytes "siteRef->dis == \"a \\\"q\\\"\\n\\$\" and ^hot-water and equipRef *== @p:demo:r:1 or inputs? ^air @ahu-1 and id != @x \"Dis \\\\ x\"" := by
   decide +kernel
 example : WFPath [seg "d", seg "b"] ∧ [seg "d", seg "b"] ≠ kwNot := by simp only [WFPath]; decide
 example : IdSeg (seg "siteRef") ∧ [seg "siteRef"] ≠ kwNot := by decide
